@@ -32,29 +32,55 @@ def run(ck):
     # ------------------------------------------------------------ atom loop and renumbering table
     aloops = [n for n in w.body if isinstance(n, ast.For) and isinstance(n.iter, ast.Call) and call_name(n.iter) == 'enumerate'
               and any(isinstance(s, ast.Expr) and call_attr(s.value) == 'write' for s in n.body)]
-    ck.ob('MPT-atoms', mod.loc(w), len(aloops) == 1, 'one enumerate loop writes the [ atoms ] lines ({} found)'.format(len(aloops)), key='MPT-atoms|loop')
-    if len(aloops) != 1:
+    # equivalent spelling: the key -> index table is built first, from the same enumeration, and the atom loop walks `table.items()`
+    tloops = []
+    for n in w.body:
+        if isinstance(n, ast.For) and isinstance(n.iter, ast.Call) and call_attr(n.iter) == 'items' and isinstance(n.iter.func.value, ast.Name) and \
+                any(isinstance(s, ast.Expr) and call_attr(s.value) == 'write' for s in n.body):
+            d = single_def(w, n.iter.func.value.id)
+            if isinstance(d, ast.DictComp) and len(d.generators) == 1 and not d.generators[0].ifs and isinstance(d.generators[0].iter, ast.Call) and \
+                    call_name(d.generators[0].iter) == 'enumerate' and isinstance(d.generators[0].target, ast.Tuple) and len(d.generators[0].target.elts) == 2 and \
+                    u(d.key) == u(d.generators[0].target.elts[1]) and u(d.value) == u(d.generators[0].target.elts[0]):
+                tloops.append((n, d))
+    ck.ob('MPT-atoms', mod.loc(w), len(aloops) + len(tloops) == 1, 'one loop over the enumerated atoms writes the [ atoms ] lines ({} found)'.format(len(aloops) + len(tloops)), key='MPT-atoms|loop')
+    if len(aloops) + len(tloops) != 1:
         return
-    al = aloops[0]
-    start = kwarg(al.iter, 'start') or (al.iter.args[1] if len(al.iter.args) > 1 else None)
+    if aloops:
+        al = aloops[0]
+        enum = al.iter
+        ivar, kvar = [u(e) for e in al.target.elts] if isinstance(al.target, ast.Tuple) and len(al.target.elts) == 2 else ('?', '?')
+    else:
+        al, comp = tloops[0]
+        enum = comp.generators[0].iter
+        kvar, ivar = [u(e) for e in al.target.elts] if isinstance(al.target, ast.Tuple) and len(al.target.elts) == 2 else ('?', '?')
+    start = kwarg(enum, 'start') or (enum.args[1] if len(enum.args) > 1 else None)
     ck.ob('MPT-atoms', mod.loc(al), try_fold(start, default=0) == 1, 'atoms are numbered from 1 (enumerate start={})'.format(u(start)), key='MPT-atoms|start')
-    ivar, kvar = [u(e) for e in al.target.elts] if isinstance(al.target, ast.Tuple) and len(al.target.elts) == 2 else ('?', '?')
-    atom_iter = u(al.iter.args[0])
-    ck.ob('MPT-atoms', mod.loc(al), atom_iter == mparam + '.sorted_nodes', 'atoms are written in atom-id order: the loop iterates `{}`'.format(atom_iter),
+    atom_iter = u(enum.args[0])
+    ck.ob('MPT-atoms', mod.loc(al), atom_iter == mparam + '.sorted_nodes', 'atoms are written in atom-id order: the enumeration runs over `{}`'.format(atom_iter),
           key='MPT-atoms|iterator')
-    stores = [s for s in al.body if isinstance(s, ast.Assign) and isinstance(s.targets[0], ast.Subscript) and u(s.targets[0].slice) == kvar and u(s.value) == ivar]
-    ck.ob('PROV-renumber', mod.loc(al), len(stores) == 1 and unconditional_in(w, al.body, stores[0]),
-          'the key -> index table is filled in the atom loop, for every atom, with the index being written ({} store(s))'.format(len(stores)), key='PROV-renumber|store')
-    if len(stores) != 1:
-        return
-    table = u(stores[0].targets[0].value)
-    others = [n for n in walk_local(w) if isinstance(n, (ast.Assign, ast.AugAssign)) and n is not stores[0] and
+    if aloops:
+        stores = [s for s in al.body if isinstance(s, ast.Assign) and isinstance(s.targets[0], ast.Subscript) and u(s.targets[0].slice) == kvar and u(s.value) == ivar]
+        ck.ob('PROV-renumber', mod.loc(al), len(stores) == 1 and unconditional_in(w, al.body, stores[0]),
+              'the key -> index table is filled in the atom loop, for every atom, with the index being written ({} store(s))'.format(len(stores)), key='PROV-renumber|store')
+        if len(stores) != 1:
+            return
+        table = u(stores[0].targets[0].value)
+        the_store = stores[0]
+    else:
+        table = al.iter.func.value.id
+        the_store = None
+        ck.ob('PROV-renumber', mod.loc(al), True, 'the key -> index table is the enumeration itself ({key: index}), and the atom loop walks exactly its items: every atom is in it with '
+              'the index being written', key='PROV-renumber|store')
+    others = [n for n in walk_local(w) if isinstance(n, (ast.Assign, ast.AugAssign)) and n is not the_store and
               any(base_name(t) == table for t in (n.targets if isinstance(n, ast.Assign) else [n.target]))]
-    init_ok = all(isinstance(n, ast.Assign) and isinstance(n.targets[0], ast.Name) and isinstance(n.value, ast.Dict) and not n.value.keys for n in others)
+    if aloops:
+        init_ok = all(isinstance(n, ast.Assign) and isinstance(n.targets[0], ast.Name) and isinstance(n.value, ast.Dict) and not n.value.keys for n in others)
+    else:
+        init_ok = all(isinstance(n, ast.Assign) and isinstance(n.targets[0], ast.Name) and isinstance(n.value, ast.DictComp) for n in others)
     upd = [c for c in walk_local(w) if isinstance(c, ast.Call) and isinstance(c.func, ast.Attribute) and base_name(c.func.value) == table
            and c.func.attr in ('update', 'setdefault', 'pop', 'clear')]
     ck.ob('PROV-renumber', mod.loc(w), init_ok and not upd and len(others) == 1,
-          'the table starts empty and has no other writer ({} other assignment(s), {} mutator call(s))'.format(len(others), len(upd)), key='PROV-renumber|single-writer')
+          'the table has no other writer ({} other assignment(s), {} mutator call(s))'.format(len(others), len(upd)), key='PROV-renumber|single-writer')
     writes = [s for s in al.body if isinstance(s, ast.Expr) and call_attr(s.value) == 'write' and u(s.value.func.value) == out]
     ck.ob('MPT-atoms', mod.loc(al), len(writes) == 1 and unconditional_in(w, al.body, writes[0]) and
           not any(isinstance(n, (ast.Continue, ast.Break, ast.If)) for s in al.body for n in ast.walk(s)),
